@@ -7,6 +7,7 @@
 #include <dispenso/parallel_for.h>
 #include <dispenso/task_set.h>
 #include <dispenso/thread_pool.h>
+#include <malloc.h>
 #include <unistd.h>
 
 namespace {
@@ -20,12 +21,18 @@ int raw_sleeping(dispenso::ThreadPool& p) {
 }
 long raw_outstanding(dispenso::TaskSetBase& ts) { return (long)ts.outstandingTaskCount_.a_.load(std::memory_order_relaxed); }
 
-void prewarm() { (void)dispenso::CpuSet::l3CacheGroups(); } // reads sysfs once; keep that out of the executions
+void prewarm() {
+  (void)dispenso::CpuSet::l3CacheGroups(); // reads sysfs once; keep that out of the executions
+  // The engine classifies a store as "changed memory" by comparing with the previous content, so the initial
+  // stores into freshly malloc'ed objects depend on heap garbage. Make fresh allocations deterministic.
+  mallopt(M_PERTURB, 0x5a);
+}
 static mc::HookSetter hooks(prewarm, nullptr);
 
 struct Tasks {
   mc::Shared<int> started[kMax];
   mc::Shared<int> finished[kMax];
+  mc::Shared<int> runner[kMax];
   mc::Shared<int> nstarted{0};
   mc::Shared<int> nfinished{0};
   mc::Shared<int> caller_ran{0};
@@ -36,6 +43,7 @@ struct Tasks {
     MC_CHECK(pool_gone.get() == 0, "task %d started after the pool was destroyed", id);
     int prev = started[id].add(1);
     MC_CHECK(prev == 0, "task %d started a second time", id);
+    runner[id].set(mc_self_id());
     if (mc_self_id() == caller_tid) caller_ran.add(1);
     nstarted.add(1);
     if (hold > 0) mc::block_until([&] { return nstarted.get() >= hold; });
@@ -205,14 +213,52 @@ MC_HARNESS(lifecycle) {
 // ResizeMoreConcurrent / ResizeGrowConcurrentBulk do exactly that, and resizeLocked()'s comments say external
 // schedule() calls are safe to race). T0 is the watchdog.
 // params: n initial size; r dotted resize script ("3", "1", "0", "0.2", "1.3"); k tasks (default n); path:
-//   s   k x pool.schedule(f), A waits on the task counters (no wait API on a bare pool)
+//   s   k x pool.schedule(f); no wait API on a bare pool, so the tasks must have run when ~ThreadPool returns
 //   ts  k x TaskSet::schedule(f); wait()            tb  TaskSet::scheduleBulk(k) (k <= n: ring fast path); wait()
 //   cs  k x ConcurrentTaskSet(kHeavy)::schedule(f) (placed -> steal ring when a sleeper is claimed); wait()
 //   pf  parallel_for(TaskSet, static range of k+1, wait=true): k chunks to the rings, one on the caller
 //   as  k x dispenso::async(pool, f); Future::wait() on each
+// gate=g (directed variant): the g-th piece of *user code* that dispenso runs on thread A inside the submission
+//   call (a bulk generator invocation, or a copy/move of the user's functor) is slow: it returns only after B's
+//   whole script has run, and B starts only when that hook has been entered (or A's submission is over). Slow
+//   generators / copy constructors are legal user code, so these are legal programs; they put a complete resize
+//   at every such point of the submission window without spending deviations. gate=0: free-running race.
 // Oracle: every body runs exactly once; when wait() returns all of A's tasks have finished; wait() and resize()
 // return within 3 s of virtual time (the 100 ms backstop may fire, so a merely delayed task is not reported, only
-// one that nobody will ever run); nothing runs after ~ThreadPool.
+// one that nobody will ever run); all bodies have run when ~ThreadPool returns and none runs later.
+namespace {
+struct Gate {
+  int at = 0, a_tid = -1;
+  mc::Shared<int> armed{0}, count{0}, fired{0}, b_done{0}, submitted{0};
+  void hook() {
+    if (!at || !armed.get() || mc_self_id() != a_tid) return;
+    if (count.add(1) + 1 != at) return;
+    fired.set(1);
+    mc::cover("gate_fired");
+    mc::block_until([&] { return b_done.get() == 1; });
+  }
+};
+struct Fn { // user functor whose copies/moves are observable user code
+  Tasks* t;
+  Gate* g;
+  int id;
+  Fn(Tasks* t_, Gate* g_, int id_) : t(t_), g(g_), id(id_) {}
+  Fn(const Fn& o) : t(o.t), g(o.g), id(o.id) { g->hook(); }
+  Fn(Fn&& o) noexcept : t(o.t), g(o.g), id(o.id) { g->hook(); }
+  void operator()() const { t->body(id); }
+};
+struct RangeFn { // parallel_for body
+  Tasks* t;
+  Gate* g;
+  RangeFn(Tasks* t_, Gate* g_) : t(t_), g(g_) {}
+  RangeFn(const RangeFn& o) : t(o.t), g(o.g) { g->hook(); }
+  RangeFn(RangeFn&& o) noexcept : t(o.t), g(o.g) { g->hook(); }
+  void operator()(int b, int e) const {
+    for (int i = b; i < e; i++) t->body(i);
+  }
+};
+} // namespace
+
 MC_HARNESS(resize_work) {
   int n = (int)P("n", 2), k = (int)P("k", n);
   std::string path = P.s("path", "tb"), script = P.s("r", "1");
@@ -225,93 +271,94 @@ MC_HARNESS(resize_work) {
     }
   }
   Tasks t;
-  mc::Shared<int> a_done{0}, b_done{0}, a_in_gen{0};
-  // gate=1 (directed variant, path tb): the generator of the last bulk task is slow - it returns only after
-  // B's whole script has run, and B starts only when that generator has been entered. Generators are user code,
-  // so this is a legal program; it pins the resize inside the submission window without spending deviations.
-  int gate_mode = (int)P("gate", 0); // 2: the slow generator only waits until B has *started* its script
-  bool gate = gate_mode != 0;
-  mc::Shared<int> b_started{0};
+  Gate g;
+  g.at = (int)P("gate", 0);
+  mc::Shared<int> a_done{0};
   int ntasks = path == "pf" ? k + 1 : k;
+  auto all_finished = [&] {
+    for (int i = 0; i < ntasks; i++)
+      if (t.finished[i].get() != 1) return false;
+    return true;
+  };
   {
     dispenso::ThreadPool pool((size_t)n);
-    auto all_finished = [&] {
-      for (int i = 0; i < ntasks; i++)
-        if (t.finished[i].get() != 1) return false;
-      return true;
-    };
     mc::spawn([&] { // ---- thread A
+      g.a_tid = mc_self_id();
       auto ring_likely = [&](int cnt) {
         long np = (long)pool.numThreads_.a_.load(std::memory_order_relaxed);
         long nr = (long)pool.numRings_.a_.load(std::memory_order_relaxed);
         return cnt * 4 >= np && cnt <= np && nr >= cnt;
       };
+      auto gen = [&](size_t i) {
+        g.hook();
+        return Fn(&t, &g, (int)i);
+      };
+      g.armed.set(1);
       if (path == "s") {
-        for (int i = 0; i < k; i++) pool.schedule([&t, i] { t.body(i); });
-        mc::block_until([&] { return all_finished(); });
+        for (int i = 0; i < k; i++) pool.schedule(Fn(&t, &g, i));
+        g.armed.set(0), g.submitted.set(1);
       } else if (path == "ts") {
         dispenso::TaskSet ts(pool);
-        for (int i = 0; i < k; i++) ts.schedule([&t, i] { t.body(i); });
+        for (int i = 0; i < k; i++) ts.schedule(Fn(&t, &g, i));
+        g.armed.set(0), g.submitted.set(1);
         ts.wait();
         MC_CHECK(all_finished(), "TaskSet::wait() returned with %d of %d tasks finished", t.nfinished.get(), ntasks);
       } else if (path == "tb") {
         dispenso::TaskSet ts(pool);
         if (ring_likely(k)) mc::cover("ring_fast_path");
-        ts.scheduleBulk((size_t)k, [&](size_t i) {
-          if (gate && (int)i == k - 1) {
-            a_in_gen.set(1);
-            if (gate_mode == 2) mc::block_until([&] { return b_started.get() == 1; });
-            else mc::block_until([&] { return b_done.get() == 1; });
-          }
-          return [&t, i] { t.body((int)i); };
-        });
+        ts.scheduleBulk((size_t)k, gen);
+        g.armed.set(0), g.submitted.set(1);
         ts.wait();
         MC_CHECK(all_finished(), "TaskSet::wait() returned with %d of %d tasks finished", t.nfinished.get(), ntasks);
       } else if (path == "cs") {
         dispenso::ConcurrentTaskSet cts(pool);
         for (int i = 0; i < k; i++) {
-          cts.schedule([&t, i] { t.body(i); });
+          cts.schedule(Fn(&t, &g, i));
           if (pool.stealRingsWithWork_.a_.load(std::memory_order_relaxed) != 0) mc::cover("steal_ring");
         }
+        g.armed.set(0), g.submitted.set(1);
         cts.wait();
         MC_CHECK(all_finished(), "ConcurrentTaskSet::wait() returned with %d of %d tasks finished", t.nfinished.get(), ntasks);
       } else if (path == "pf") {
         dispenso::TaskSet ts(pool);
         if (ring_likely(k)) mc::cover("ring_fast_path");
-        dispenso::parallel_for(
-            ts, dispenso::makeChunkedRange(0, k + 1, dispenso::ParForChunking::kStatic), [&t](int b, int e) { for (int i = b; i < e; i++) t.body(i); });
+        // the hooks of this path are the copies of the loop body that parallel_for makes per chunk while it is
+        // inside TaskSet::scheduleBulk; the caller's own chunk and wait() follow inside the same call
+        dispenso::parallel_for(ts, dispenso::makeChunkedRange(0, k + 1, dispenso::ParForChunking::kStatic), RangeFn(&t, &g));
+        g.armed.set(0), g.submitted.set(1);
         MC_CHECK(all_finished(), "parallel_for returned with %d of %d indices done", t.nfinished.get(), ntasks);
       } else if (path == "as") {
         std::vector<dispenso::Future<void>> futs;
-        for (int i = 0; i < k; i++) futs.push_back(dispenso::async(pool, [&t, i] { t.body(i); }));
+        for (int i = 0; i < k; i++) futs.push_back(dispenso::async(pool, Fn(&t, &g, i)));
+        g.armed.set(0), g.submitted.set(1);
         for (auto& f : futs) f.wait();
         MC_CHECK(all_finished(), "Future::wait() returned with %d of %d functors finished", t.nfinished.get(), ntasks);
       } else {
         MC_CHECK(false, "harness: unknown path %s", path.c_str());
       }
+      mc::observe("hooks", g.count.get());
       a_done.set(1);
     });
     mc::spawn([&] { // ---- thread B
-      if (gate) mc::block_until([&] { return a_in_gen.get() == 1 || a_done.get() == 1; });
-      b_started.set(1);
+      if (g.at) mc::block_until([&] { return g.fired.get() == 1 || g.submitted.get() == 1; });
       for (int m : sizes) {
         pool.resize(m);
         MC_CHECK(pool.numThreads() == m, "numThreads() %ld right after resize(%d)", (long)pool.numThreads(), m);
       }
-      b_done.set(1);
+      g.b_done.set(1);
     });
     // ---- T0: watchdog in virtual time
     uint64_t limit = mc::now_ns() + 3000ull * 1000 * 1000;
-    mc::block_until([&] { return (a_done.get() && b_done.get()) || mc::now_ns() > limit; });
-    MC_CHECK(b_done.get() == 1, "resize script %s did not finish within 3 s of virtual time", script.c_str());
+    mc::block_until([&] { return (a_done.get() && g.b_done.get()) || mc::now_ns() > limit; });
+    MC_CHECK(g.b_done.get() == 1, "resize script %s did not finish within 3 s of virtual time", script.c_str());
     MC_CHECK(a_done.get() == 1, "stranded: the submitter is still waiting after 3 s of virtual time (%d of %d tasks started, %d finished, pool size now %ld)",
              t.nstarted.get(), ntasks, t.nfinished.get(), (long)pool.numThreads_.a_.load(std::memory_order_relaxed));
     mc::join_all();
     int final_size = sizes.empty() ? n : sizes.back();
     MC_CHECK(mc_live_threads() == 1 + final_size, "%d modelled threads alive after the script, expected T0 + %d workers", mc_live_threads(), final_size);
-    mc::observe("inline_or_pool", t.caller_ran.get());
+    if (t.nfinished.get() < ntasks) mc::cover("left_for_destructor");
   }
   t.pool_gone.set(1);
-  for (int i = 0; i < ntasks; i++) MC_CHECK(t.started[i].get() == 1 && t.finished[i].get() == 1, "task %d: started %d finished %d", i, t.started[i].get(), t.finished[i].get());
+  for (int i = 0; i < ntasks; i++) MC_CHECK(t.started[i].get() == 1 && t.finished[i].get() == 1, "task %d: started %d finished %d when ~ThreadPool returned", i, t.started[i].get(), t.finished[i].get());
   mc::observe("tasks", ntasks);
 }
